@@ -48,7 +48,8 @@ fn injected(op: &str) -> Error {
 
 struct MemIter<'a> {
     svc: &'a mut MemService,
-    items: Vec<String>,
+    /// the names to deliver; taken when the first page is fetched, not when the iterator is made
+    items: Option<Vec<String>>,
     pos: usize,
     page: usize,
     prefix: String,
@@ -62,7 +63,7 @@ impl AsyncObjectIterator for MemIter<'_> {
             return None;
         }
         loop {
-            if self.pos >= self.items.len() {
+            if self.items.as_ref().is_some_and(|i| self.pos >= i.len()) {
                 return None;
             }
             if self.pos % self.page == 0 {
@@ -75,7 +76,24 @@ impl AsyncObjectIterator for MemIter<'_> {
                     }
                 }
             }
-            let name = self.items[self.pos].clone();
+            if self.items.is_none() {
+                // the listing reflects the store at the moment its first page is served
+                let mut items: Vec<String> = self
+                    .svc
+                    .objects
+                    .lock()
+                    .unwrap()
+                    .keys()
+                    .filter(|k| k.starts_with(&self.prefix))
+                    .cloned()
+                    .collect();
+                self.page = self.svc.gate.arrange_listing(&mut items).max(1);
+                self.items = Some(items);
+                if self.items.as_ref().unwrap().is_empty() {
+                    return None;
+                }
+            }
+            let name = self.items.as_ref().unwrap()[self.pos].clone();
             self.pos += 1;
             // an object deleted since the listing started is simply not reported
             let found = self.svc.objects.lock().unwrap().get(&name).map(|(_, c)| *c);
@@ -137,20 +155,11 @@ impl Service for MemService {
     }
 
     async fn list<'a>(&'a mut self, prefix: &'a str) -> Box<dyn AsyncObjectIterator + Send + 'a> {
-        let mut items: Vec<String> = self
-            .objects
-            .lock()
-            .unwrap()
-            .keys()
-            .filter(|k| k.starts_with(prefix))
-            .cloned()
-            .collect();
-        let page = self.gate.arrange_listing(&mut items).max(1);
         Box::new(MemIter {
             svc: self,
-            items,
+            items: None,
             pos: 0,
-            page,
+            page: 1,
             prefix: prefix.to_string(),
             failed: false,
         })
